@@ -114,6 +114,46 @@ def run(prog, rep, tier):
                           sample={'variant': dv, 'icao24_from': '.'.join(names), 'type': tname} if root == 'Message' and len(rep.samples) < 10 else None)
         rep.check(seen_df == set(range(len(dft['variants']))), 'R-tag', '%s#all-df-variants' % root, site_of.get('decode::DF', '-'),
                   'DF variants reached by the shape walk: %s of %d' % (sorted(seen_df), len(dft['variants'])))
+    # nested values: every type stored under a key (and inside Option / Vec) must itself serialise to
+    # a well-formed value
+    work = []
+    for root, rt in (('Message', mt), ('TimedMessage', tm)):
+        for a in S.shape(rt['id']):
+            for kname, info in a['keys'].items():
+                if info.get('ty') is not None:
+                    work.append((info['ty'], '%s.%s' % (root, kname)))
+    done = set()
+    nested = 0
+    while work:
+        tyid, where = work.pop()
+        tyid = shapes.strip_ref(prog, tyid)
+        if tyid in done:
+            continue
+        done.add(tyid)
+        ty = prog.types[tyid]
+        if ty['k'] in ('slice', 'array'):
+            work.append((ty['elem'], where + '[]'))
+            continue
+        if ty['k'] == 'adt' and ty['name'] in ('core::option::Option', 'std::option::Option', 'alloc::vec::Vec', 'std::vec::Vec', 'alloc::boxed::Box') and ty['args']:
+            work.append((ty['args'][0], where))
+            continue
+        if ty['k'] != 'adt':
+            continue
+        tname = ty['name']
+        if not (tname in S.impls or tname.split('::', 1)[-1] in S.impls):
+            continue
+        nested += 1
+        for a in S.shape(tyid):
+            label = tname.split('::')[-1] + (('::' + a['variant']) if a.get('variant') else '')
+            site = site_of.get(tname, '-')
+            for e in a['errors']:
+                rep.fail('R-flat', 'value#unserialisable#%s' % label, site, 'value under %s is not serialisable: %s' % (where, e))
+            rep.check(not a['dups'], 'R-dup', 'value#dups#%s' % label, site, 'value under %s (%s) emits keys twice: %s' % (where, label, a['dups']),
+                      sample={'nested_value': label, 'under': where, 'keys': sorted(a['keys'])[:8]} if nested in (3, 9) else None)
+            for kname, info in a['keys'].items():
+                if info.get('ty') is not None:
+                    work.append((info['ty'], '%s.%s' % (label, kname)))
+    rep.floor('nested value types checked', nested, 15)
     # R-frame
     alts = S.shape(tm['id'])
     for a in alts[:1]:
